@@ -77,6 +77,10 @@ def instances(tier, seed):
     for ps, r in ((["a b", "c a"], None), (["a", "b", "a b"], None), (["a b", "b"], "a"), (["*v a", "a"], None)):
         for tc in ("typeguard", "beartype"):
             out.append(("core", dict(params=ps, ret=r, maxrank=mr, switch=0, tc=tc, with_default=True)))
+    # a structured PyTree parameter followed by an array parameter that fails: T must be listed
+    for tc in ("typeguard", "beartype"):
+        for sw in (0, 1):
+            out.append(("core", dict(params=["a b", "a"], ret=None, maxrank=mr, switch=sw, tc=tc, tree_first=True)))
     # misuse -> AnnotationError
     for ps, r in ([["a+1"], None], [["a"], "b+1"], [["?a"], None], [["#a", "a+1"], None], [["a"], "?a"]):
         for tc in ("typeguard", "beartype"):
@@ -206,8 +210,56 @@ def build_fn(inst, V):
 _union_cache = {}
 
 
+def scenario_tree(inst, V):
+    """f(t: PyTree[Float[A,'a b'],'T'], y: Float[A,'a']): when y fails, the message lists a, b and T"""
+    import jaxtyping as jt
+    A = V.ARR
+    key = ("tree", A, inst["tc"])
+    if key not in _union_cache:
+        _union_cache[key] = fnlib.build([None, "a"], None, A, inst["tc"], "function", None,
+                                        anns=[jt.PyTree[jt.Float[A, "a b"], "T"], None])
+    fn, pn = _union_cache[key]
+    l0 = [V.int("t0", 0), V.int("t1", 0)]
+    l1 = [V.int("t2", 0), V.int("t3", 0)]
+    ys = [V.int("y0", 0)]
+    tree = (V.arr(l0), [V.arr(l1)])
+    jt.config.update("jaxtyping_remove_typechecker_stack", bool(inst["switch"]))
+    try:
+        kind, res = fnlib.call(fn, pn, [tree, V.arr(ys)], "pos")
+    finally:
+        jt.config.update("jaxtyping_remove_typechecker_stack", False)
+    B = D.Bindings()
+    ok_tree = True
+    for sh in (l0, l1):
+        st = D.step(D.parse_ref("a b"), [core.lift(x) for x in sh], B)
+        if V.decide(st["strict"] == D.ACC):
+            B = st["B"]
+        else:
+            ok_tree = False
+            break
+    if kind != "TCE":
+        sty = D.step(D.parse_ref("a"), [core.lift(x) for x in ys], B) if ok_tree else None
+        V.check("verdict-class", kind == "OK" and ok_tree and V.decide(sty["strict"] == D.ACC), verdict=kind)
+        return dict(verdict=kind)
+    info = parse_message(str(res))
+    V.reach("TCE-params")
+    V.check("stage", info["stage"] == "parameters", said=info["stage"])
+    if ok_tree:
+        V.check("blame", info["blamed"] == "p1", blamed=info["blamed"])
+        compare.check_bindings(V, "bindings", dict(single=info["single"], variadic=info["variadic"]), B, tree=True)
+        V.check("structure-listed", sorted(info["pytree"]) == ["T"], listed=sorted(info["pytree"]))
+    else:
+        V.check("blame", info["blamed"] == "p0", blamed=info["blamed"])
+        V.check("structure-listed", sorted(info["pytree"]) == [], listed=sorted(info["pytree"]))
+        compare.check_bindings(V, "bindings", dict(single=info["single"], variadic=info["variadic"]), D.Bindings(), tree=True)
+    V.check("cause", (res.__cause__ is None) == bool(inst["switch"]))
+    return dict(verdict="TCE", blamed=info["blamed"], pytree=sorted(info["pytree"]))
+
+
 def scenario(inst, V):
     import jaxtyping as jt
+    if inst.get("tree_first"):
+        return scenario_tree(inst, V)
     params, ret = inst["params"], inst["ret"]
     k, mr = len(params), inst["maxrank"]
     shapes = []
